@@ -21,6 +21,8 @@ func init() {
 			"C01.wreset: msgWriter.Close returns the flate writer to the pool iff flate ∧ ¬takeover, after the final frame succeeded",
 			"C01.tail: deflateMessageTail is 00 00 ff ff and every non-zero constant in trimLastFourBytesWriter.Write equals its length",
 			"C01.count / C01.frag / C01.side / C01.decide: shared with C04.count, C02.frag, C14.side, C02.rsv1.decide",
+			"C01.payload: a data frame whose flate flag may be set carries nothing or the bytes handed to this very call (nothing bypasses the compressor)",
+			"C01.recv.loop: the receive-side accept/reject/dispatch table of readLoop (shared with C03.loop)",
 		},
 		NotDecided: []string{"byte equality of the round trip", "sliding-window shifting arithmetic", "tail bookkeeping inside trimLastFourBytesWriter", "message order", "threshold values"},
 		Trusted:    []string{"go/types, go/ssa", "compress/flate, bufio contracts", "io.Writer contract: Write does not modify p"},
@@ -34,6 +36,7 @@ func init() {
 			"C08.wrap: limit(inflate(bufio(frames))) order by the funnel rules; msgReader.Read reads only through the limit reader",
 			"C08.eom: the limit error (or any error other than io.EOF / io.ErrUnexpectedEOF) is never reported as a clean end of message",
 			"C08.mem: wire-declared lengths size no allocation, Grow or copy (shared with C03.taint)",
+			"C08.sites: StatusMessageTooBig (1009) is sent only from limitReader.Read, which counts delivered (decompressed) bytes",
 		},
 		NotDecided: []string{"the byte count at the boundary for a concrete compressed stream", "actual heap use (compress/flate's fixed windows are trusted)"},
 		Trusted:    []string{"go/types, go/ssa", "io.Reader contract"},
@@ -46,9 +49,9 @@ func init() {
 			"C18.msgend: identity err == io.EOF from the message reader ↦ reader=nil, err=nil; Read loops while n == 0 ∧ err == nil",
 			"C18.write: Write holds writeMu, tests the expired flag, issues one c.Write(writeCtx, msgType, p) and returns len(p) on success",
 			"C18.limit: NetConn calls SetReadLimit(-1)",
-			"C18.deadline: timer callbacks: tryLock failed ↦ cancel the context only; succeeded ↦ atomic store expired=1 and release; Read/Write return an error wrapping context.DeadlineExceeded when the flag is set, without touching the connection; SetRead/WriteDeadline store 0 to the flag, Stop for the zero time else Reset(max(until,1))",
+			"C18.deadline: timer callbacks: tryLock failed ↦ cancel the context only; succeeded ↦ atomic store expired=1 and release; Read/Write return an error wrapping context.DeadlineExceeded when the flag is set, without touching the connection; SetRead/WriteDeadline store 0 to the flag, Stop for the zero time; for a time already passed they stop the timer and take the callback's decision at once (F20); else Reset(until)",
 		},
-		NotDecided: []string{"that concatenated writes equal concatenated reads (rests on C01)", "timing", "the race between an already-expired deadline's timer and the next call"},
+		NotDecided: []string{"that concatenated writes equal concatenated reads (rests on C01)", "timing", "a deadline reset that races a timer callback already in flight (audit C18-finding_2)"},
 		Trusted:    []string{"go/types, go/ssa", "time.Timer, sync/atomic contracts"},
 	}, runC18)
 	register("C19", propInfo{
@@ -57,6 +60,7 @@ func init() {
 			"C19.write: the WriterFunc closure calls c.Write(ctx, MessageText, p) with its own p and returns len(p) / (0, err); write does one Encode(v) on one encoder over that closure",
 			"C19.read: one c.Reader(ctx); bpool.Get then deferred Put; ReadFrom error ↦ return; json.Unmarshal(b.Bytes(), v) error ↦ c.Close(StatusInvalidFramePayloadData, …) and a non-nil error wrapping it with %w; else nil",
 			"C19.alias: b.Bytes() flows only into json.Unmarshal (shared with C07.ws)",
+			"C19.clients: bpool is used only by wsjson.read (shared with C07.clients)",
 		},
 		NotDecided: []string{"JSON equivalence of values (encoding/json trusted: one Write per Encode)"},
 		Trusted:    []string{"go/types, go/ssa", "encoding/json contracts"},
@@ -105,7 +109,22 @@ func c01buf(p *Program, r *Report, rule string) {
 	}
 	tainted := map[*ssa.Parameter]bool{}
 	for fnName, prm := range roots {
-		fn := p.Func(fnName)
+		var fn *ssa.Function
+		if fnName == "wsjson.write$1" {
+			fn, _ = p.wsjsonSink()
+			if fn != nil && fn.Signature.Recv() != nil {
+				// a named writer type instead of the closure: its []byte parameter, whatever it is called
+				for _, x := range fn.Params {
+					if _, ok := x.Type().Underlying().(*types.Slice); ok {
+						tainted[x] = true
+					}
+				}
+				continue
+			}
+		}
+		if fn == nil {
+			fn = p.Func(fnName)
+		}
 		if fn == nil {
 			continue
 		}
@@ -547,7 +566,7 @@ func runC08(p *Program, r *Report) {
 		p.runTable(r, tableSpec{
 			Rule: "C08.plus1", Fn: fn, Atoms: []Atom{intAtom("param:n", candidates(intConstsCompared(fn), -1, 0, 1, 32768))},
 			Classify: func(v Valuation, pa *Path) string {
-				st := pa.Calls("xsync.Int64.Store")
+				st := limitStores(pa)
 				if len(st) != 1 || argKey(st[0], 0) != "&limitReader.limit" {
 					return "NO-STORE"
 				}
@@ -580,7 +599,7 @@ func runC08(p *Program, r *Report) {
 	// the same end to end: whatever newLimitReader (and helpers) do with the argument, the value stored is 32768+1
 	if fn := p.Func("newMsgReader"); fn != nil {
 		p.forAllPaths(r, "C08.plus1", fn, "default limit as stored", Opts{Inline: p.inlineSet("newLimitReader")}, "the allowance stored by the constructor chain newMsgReader → newLimitReader is the constant 32768+1", func(pa *Path) (bool, string) {
-			st := pa.Calls("xsync.Int64.Store")
+			st := limitStores(pa)
 			if len(st) != 1 || !strings.HasSuffix(argKey(st[0], 0), ".limit") {
 				return false, fmt.Sprintf("%d stores of the limit in the constructor chain", len(st))
 			}
@@ -609,7 +628,7 @@ func runC08(p *Program, r *Report) {
 		p.forAllPaths(r, "C08.reset", fn, "allowance reloaded", Opts{}, "limitReader.reset sets n = limit.Load() and r = its argument", func(pa *Path) (bool, string) {
 			okN, okR := false, false
 			for _, e := range pa.Events {
-				if e.Kind == "store" && e.AddrK == "limitReader.n" && keyIs(e.Val, "call:xsync.Int64.Load@@") {
+				if e.Kind == "store" && e.AddrK == "limitReader.n" && (keyIs(e.Val, "call:xsync.Int64.Load@@") || keyIs(e.Val, "call:atomic.LoadInt64@@")) {
 					okN = true
 				}
 				if e.Kind == "store" && e.AddrK == "limitReader.r" && e.Val.Key() == "param:r" {
@@ -968,20 +987,116 @@ func expireDecision(pa *Path, mu, cancel, flag string) (bool, string) {
 	return true, ""
 }
 
+// limitStores: the stores of the read limit, through the library's xsync.Int64 or a sync/atomic integer.
+func limitStores(pa *Path) []*Event {
+	out := append([]*Event{}, pa.Calls("xsync.Int64.Store")...)
+	for _, e := range pa.Calls("atomic.StoreInt64") {
+		if strings.HasSuffix(argKey(e, 0), ".limit") {
+			out = append(out, e)
+		}
+	}
+	return out
+}
+
+// wsjsonSink resolves the io.Writer handed to json.NewEncoder in wsjson.write: the closure (kind "closure") or the Write
+// method of a library type (kind "method"). nil when it cannot be resolved.
+func (p *Program) wsjsonSink() (*ssa.Function, string) {
+	fn := p.FuncOpt("wsjson.write")
+	if fn == nil {
+		return nil, ""
+	}
+	for _, b := range p.blocksOf(fn) {
+		for _, in := range b.Instrs {
+			c, ok := in.(*ssa.Call)
+			if !ok {
+				continue
+			}
+			cal := c.Call.StaticCallee()
+			if cal == nil || cal.Name() != "NewEncoder" || cal.Pkg == nil || cal.Pkg.Pkg.Path() != "encoding/json" || len(c.Call.Args) != 1 {
+				continue
+			}
+			v := c.Call.Args[0]
+			for {
+				switch x := v.(type) {
+				case *ssa.MakeInterface:
+					v = x.X
+					continue
+				case *ssa.ChangeInterface:
+					v = x.X
+					continue
+				case *ssa.ChangeType:
+					v = x.X
+					continue
+				case *ssa.Convert:
+					v = x.X
+					continue
+				}
+				break
+			}
+			if mc, ok := v.(*ssa.MakeClosure); ok {
+				return mc.Fn.(*ssa.Function), "closure"
+			}
+			t := v.Type()
+			if _, isPtr := t.(*types.Pointer); !isPtr {
+				if _, named := t.(*types.Named); !named {
+					return nil, ""
+				}
+			}
+			sel := p.SSA.MethodSets.MethodSet(t).Lookup(nil, "Write")
+			if sel == nil {
+				// unexported lookup needs the package; Write is exported, so nil means no such method
+				return nil, ""
+			}
+			if m := p.SSA.MethodValue(sel); m != nil && p.isLib(m) && len(m.Blocks) > 0 {
+				return m, "method"
+			}
+			return nil, ""
+		}
+	}
+	return nil, ""
+}
+
 // ---- C19 -----------------------------------------------------------------------------------------------------------------------------
 
 func runC19(p *Program, r *Report) {
-	if fn := p.Func("wsjson.write$1"); fn != nil {
-		p.forAllPaths(r, "C19.write", fn, "one text message per encoder write", Opts{}, "the writer closure issues c.Write(ctx, MessageText, p) with its own p and returns (len(p), nil) on success, (0, err) on failure", func(pa *Path) (bool, string) {
+	sink, sinkKind := p.wsjsonSink()
+	if sink == nil {
+		sink = p.Func("wsjson.write$1")
+	}
+	if fn := sink; fn != nil {
+		// the writer the encoder writes into: the closure converted to util.WriterFunc, or the Write method of a named type
+		// constructed in wsjson.write from its ctx and c
+		pname, connK, ctxK := "param:p", "FV:c", "FV:ctx"
+		if sinkKind == "method" {
+			recv := ""
+			if len(fn.Params) > 0 {
+				recv = paramName(fn.Params[0])
+			}
+			for _, x := range fn.Params[1:] {
+				if _, ok := x.Type().Underlying().(*types.Slice); ok {
+					pname = "param:" + paramName(x)
+				}
+			}
+			connK, ctxK = "recv:"+recv, "recv:"+recv
+		}
+		fromRecv := func(k, want string) bool {
+			if !strings.HasPrefix(want, "recv:") {
+				return k == want
+			}
+			rv := strings.TrimPrefix(want, "recv:")
+			// a field of the receiver: value receiver "param:w.f", pointer receiver "<Type>.f"
+			return strings.HasPrefix(k, "param:"+rv+".") || (strings.Contains(k, ".") && !strings.Contains(k, "call:") && !strings.HasPrefix(k, "param:") && !strings.HasPrefix(k, "FV:"))
+		}
+		p.forAllPaths(r, "C19.write", fn, "one text message per encoder write", Opts{}, "the encoder's writer issues c.Write(ctx, MessageText, p) with its own p and returns (len(p), nil) on success, (0, err) on failure", func(pa *Path) (bool, string) {
 			ws := pa.Calls("Conn.Write")
-			if len(ws) != 1 || argKey(ws[0], 1) != "FV:ctx" || argKey(ws[0], 2) != "1" || argKey(ws[0], 3) != "param:p" || argKey(ws[0], 0) != "FV:c" {
+			if len(ws) != 1 || !fromRecv(argKey(ws[0], 1), ctxK) || argKey(ws[0], 2) != "1" || argKey(ws[0], 3) != pname || !fromRecv(argKey(ws[0], 0), connK) {
 				return false, "not exactly one c.Write(ctx, MessageText, p)"
 			}
 			ok, k := decidedLike(pa, "call:Conn.Write@@ == nil")
 			if !k {
 				return false, "error not tested"
 			}
-			if ok && (pa.Ret[0].Key() != "len(param:p)" || pa.Ret[1].Key() != "nil") {
+			if ok && (pa.Ret[0].Key() != "len("+pname+")" || pa.Ret[1].Key() != "nil") {
 				return false, "success returns " + pa.Ret[0].Key()
 			}
 			if !ok && (pa.Ret[0].Key() != "0" || pa.Ret[1].Key() != ws[0].Res.Key()) {
@@ -991,14 +1106,18 @@ func runC19(p *Program, r *Report) {
 		})
 	}
 	if fn := p.Func("wsjson.write"); fn != nil {
-		p.forAllPaths(r, "C19.write", fn, "one Encode", Opts{}, "write performs exactly one json.NewEncoder(closure).Encode(v) and wraps its error with %w", func(pa *Path) (bool, string) {
+		p.forAllPaths(r, "C19.write", fn, "one Encode", Opts{}, "write performs exactly one json.NewEncoder(writer).Encode(v) over the writer built from its own ctx and c, and wraps its error with %w", func(pa *Path) (bool, string) {
 			ne := pa.Calls("json.NewEncoder")
 			en := pa.Calls("(*json.Encoder).Encode")
 			if len(ne) != 1 || len(en) != 1 || argKey(en[0], 0) != ne[0].Res.Key() || argKey(en[0], 1) != "param:v" {
 				return false, "not one Encode(v) on one encoder"
 			}
 			if _, ok := stripConvAll(ne[0].Args[0]).(*Closure); !ok {
-				return false, "encoder does not write into the closure: " + argKey(ne[0], 0)
+				// a value of a named writer type: it must carry this call's ctx and c
+				k := argKey(ne[0], 0)
+				if sinkKind != "method" || !strings.Contains(k, "param:ctx") || !strings.Contains(k, "param:c") {
+					return false, "encoder does not write into the closure: " + k
+				}
 			}
 			ok, k := decidedLike(pa, "call:(*json.Encoder).Encode@@ == nil")
 			if k && !ok && retErr(pa) != "nonnil" {
